@@ -254,8 +254,7 @@ void MEDDLY::prepost_set_mtrel<EOP, ATYPE>::_compute(int L,
     // **************************************************************
     const int Alevel = arg1F->getNodeLevel(A);
     const int Blevel = ABS(arg2F->getNodeLevel(B));
-    const int Clevel = forced_by_levels ? L : MAX(Alevel, Blevel);
-    const int nextL = MDD_levels::downLevel(Clevel);
+    int Clevel = forced_by_levels ? L : MAX(Alevel, Blevel);
 
     // **************************************************************
     //
@@ -280,6 +279,17 @@ void MEDDLY::prepost_set_mtrel<EOP, ATYPE>::_compute(int L,
         C = resF->makeRedundantsTo(C, Alevel, L);
         return;
     }
+
+    //
+    // Both operands are terminals, but we are above level 0:
+    // the relation is constant over the remaining (skipped, fully
+    // reduced) levels.  Expand level L; the result depends on L,
+    // so it cannot be cached under the key (A, B).
+    //
+    const bool both_terminal = (0 == Clevel);
+    if (both_terminal) Clevel = L;
+    const bool useCT = forced_by_levels || !both_terminal;
+    const int nextL = MDD_levels::downLevel(Clevel);
 
 #ifdef TRACE
     out << ATYPE::name(FORWD) << " prepost_set_mtrel::compute(" << L << ", ";
@@ -312,7 +322,7 @@ void MEDDLY::prepost_set_mtrel<EOP, ATYPE>::_compute(int L,
         key[1].setN(B);
     }
 
-    if (ct->findCT(key, res)) {
+    if (useCT && ct->findCT(key, res)) {
         //
         // compute table hit
         //
@@ -557,7 +567,7 @@ void MEDDLY::prepost_set_mtrel<EOP, ATYPE>::_compute(int L,
     } else {
         res[0].setN(C);
     }
-    ct->addCT(key, res);
+    if (useCT) ct->addCT(key, res);
 
     //
     // Cleanup
